@@ -275,3 +275,42 @@ def _clip(ctx, fi, K, node, args, env):
     ctx.check('R3.5', bad is None, fi.module, fi.qualname, norm(node, 70),
               f'{bad}: negative / out-of-range indices are resolved relative to the field instead of the view (or vice versa)', node.lineno,
               sample={'method': fi.key, 'expr': norm(node, 70), 'kinds': ks})
+
+
+def check_stop_maintenance(ctx):
+    """R3.6 — a bounded view (`_stop is not None`) must follow the length of its field: after every kernel call through which a view method
+    can change the field (`self.base._put_one / _put_slice / put / put_slice`, `_get_one / _get_slice` with a cut), every normal path to
+    the exit passes the `self._stop is not None` decision (whose true arm adjusts `_stop`) or stores `_stop` directly."""
+    from ..cfg import CFG, subnodes
+    ctx.rule('R3.6', 'every view method that edits the field through the kernel re-synchronises a bounded view\'s _stop afterwards', 10)
+    MUT = {'_put_one', '_put_slice', 'put', 'put_slice'}
+    GET = {'_get_one': 2, '_get_slice': 3}
+    m = ctx.repo.mod('view')
+    view_classes = {n.name for n in m.tree.body if isinstance(n, ast.ClassDef) and (n.name == 'FSTView' or any(norm(b).startswith('FSTView') for b in n.bases))}
+    for fi in ctx.repo.all_funcs():
+        if fi.module != 'view' or fi.cls not in view_classes or isinstance(fi.node, ast.Lambda):
+            continue
+        cfg = CFG(fi.node)
+        good, muts = set(), []
+        for nd in cfg.nodes:
+            for x in subnodes(cfg, nd):
+                if isinstance(x, ast.Compare) and norm(x.left) == 'self._stop' and len(x.ops) == 1 and isinstance(x.ops[0], (ast.Is, ast.IsNot)) and \
+                        isinstance(x.comparators[0], ast.Constant) and x.comparators[0].value is None:
+                    good.add(nd.id)
+                elif isinstance(x, (ast.Assign, ast.AugAssign)):
+                    t = x.targets[0] if isinstance(x, ast.Assign) else x.target
+                    if norm(t) == 'self._stop':
+                        good.add(nd.id)
+                elif isinstance(x, ast.Call) and isinstance(x.func, ast.Attribute) and norm(x.func.value) in ('self.base', 'base'):
+                    cn = x.func.attr
+                    if cn in MUT:
+                        muts.append((nd, x))
+                    elif cn in GET and len(x.args) > GET[cn] and not (isinstance(x.args[GET[cn]], ast.Constant) and x.args[GET[cn]].value is False):
+                        muts.append((nd, x))
+        for nd, x in muts:
+            # a view that is used up by the operation (`return`ed result of a cut of everything) still has to clip: no exemption
+            reach = cfg.reachable(nd.id, lambda n_, lab, s: lab != 'exc', stop=good)
+            ctx.check('R3.6', cfg.exit not in reach, fi.module, fi.qualname, norm(x, 70),
+                      'the field length may change here but some path leaves the method without looking at `self._stop`: a bounded view keeps its old '
+                      'end and silently takes in (or loses) the neighbouring element; later operations through the view land one off', x.lineno,
+                      sample={'method': fi.key, 'call': norm(x, 70)})
